@@ -204,6 +204,17 @@ def step {V : Type} [Zero V] (atomic : Bool) (s : State V) (op : Op V) : State V
   let r := stepLegacy s op
   if atomic then (match r.2 with | some e => (s, some e) | Option.none => r) else r
 
+/-- VARIANT, not the source (kept for `Pygom.C09.early_exit_input_order_counterexample`): a "nothing changed" fast path
+placed between the format dispatch and the unroll loop,
+`if hasattr(self, "_parameters") and list(param_out.values()) == self._paramValue: return`.
+`param_out.values()` is in INSERTION (input) order, `_paramValue` in DECLARED order: the test compares values that
+belong to different names.  On the fast path neither `_parameters` nor `_paramValue` is touched. -/
+def stepEarlyExit {V : Type} [Zero V] [DecidableEq V] (s : State V) (op : Op V) : State V × Option Err :=
+  let r := step true s op
+  match r.2, r.1.dict, s.dict with
+  | Option.none, some d, some _ => if d.map Prod.snd = s.pv then (s, Option.none) else r
+  | _, _, _ => r
+
 /-- the model right after construction (`DeterministicOde.__init__`: `_paramValue = [0]*n`) -/
 def init {V : Type} [Zero V] (params : List String) : State V :=
   { params := params, dict := Option.none, pv := List.replicate params.length 0 }
